@@ -269,7 +269,29 @@ func (k *symKube) GetWaiter(ws kube.WaitStrategy) (kube.Waiter, error) {
 	if k.faults.fail("kube.GetWaiter") {
 		return nil, fmt.Errorf("injected: no waiter")
 	}
+	if ws == kube.HookOnlyStrategy {
+		return hookOnlyModel{k}, nil // what `--wait` not given means: hooks are waited for, resources are not
+	}
 	return k, nil
+}
+
+// hookOnlyModel: the waiter of the hook-only strategy — readiness of the release's
+// resources is NOT checked (no failure is possible there), hooks are still watched.
+type hookOnlyModel struct{ k *symKube }
+
+func (h hookOnlyModel) Wait(resources kube.ResourceList, timeout time.Duration) error {
+	h.k.note(false, "HookOnlyWait %s", names(resources))
+	return nil
+}
+func (h hookOnlyModel) WaitWithJobs(resources kube.ResourceList, timeout time.Duration) error {
+	return h.Wait(resources, timeout)
+}
+func (h hookOnlyModel) WaitForDelete(resources kube.ResourceList, timeout time.Duration) error {
+	h.k.note(false, "HookOnlyWaitForDelete %s", names(resources))
+	return nil
+}
+func (h hookOnlyModel) WatchUntilReady(resources kube.ResourceList, timeout time.Duration) error {
+	return h.k.WatchUntilReady(resources, timeout)
 }
 
 func (k *symKube) Wait(resources kube.ResourceList, timeout time.Duration) error {
